@@ -163,3 +163,9 @@ CASES += [
         ("quantarhei/builders/aggregate_base.py", "        a = 0\n        for ess1 in self.elsignatures(mult=mult, mode=mode):\n            es1 = self.get_ElectronicState(ess1, a)\n            yield a,es1\n            a += 1\n",
          "        a = 0\n        for ess1 in self.elsignatures(mult=mult, mode=mode):\n            with energy_units(\"int\"):\n                es1 = self.get_ElectronicState(ess1, a)\n            yield a,es1\n            a += 1\n", 1)]},
 ]
+
+CASES += [
+    {"name": "multiplicative short cut in convert() guards the source unit only (seeded change of round 7)", "kind": "mutant", "rule": "C05-U18", "edits": [
+        ("quantarhei/core/units.py", "    m = Manager()\n    with energy_units(in_units):\n        e = m.convert_energy_2_internal_u(val)\n    \n    if to is None:",
+         "    m = Manager()\n    if (to in conversion_facs_energy) and (in_units in conversion_facs_energy):\n        if in_units != \"nm\":\n            return (val*conversion_facs_energy[in_units])/conversion_facs_energy[to]\n    with energy_units(in_units):\n        e = m.convert_energy_2_internal_u(val)\n    \n    if to is None:", 1)]},
+]
